@@ -39,6 +39,7 @@ type OblResult struct {
 	Trivial  bool
 	Size     int
 	AllTries []smt.Result
+	Cross    map[string]string // thorough tier: verdict of every solver on the final script
 }
 
 // NewExec prepares an executor for fn.
@@ -120,6 +121,10 @@ func (e *Exec) Generate() (err error) {
 		}
 		for _, rq := range spec.Requires {
 			e.assume(st, e.evalSpecBool(rq, vars, st, st, "requires"))
+		}
+		for _, as := range spec.Assumes {
+			e.assume(st, e.evalSpecBool(as, vars, st, st, "assumes"))
+			e.Externs["assumed definition `"+clauseLabel(as)+"` in the contract of "+e.fnName] = true
 		}
 		for _, gi := range spec.GhostInit {
 			se := &specEnv{e: e, st: st, old: st, vars: vars, bound: map[string]Value{}, where: "ghost init"}
@@ -442,26 +447,43 @@ func (e *Exec) EmitMode(o *Obligation, strict bool) []*smt.Term {
 		}
 	}
 	included := make([]bool, len(axs))
-	seqByTerm := map[int]seqName{}
+	// named sequences are recognised by the name of their (fresh) symbol: the
+	// name itself when it is a constant, the function when it was introduced
+	// under a quantifier (then only its ground instances take part)
+	seqW := map[string]int{}
+	viewW := map[int]int{} // sequence-valued spec terms used as sequences: exact terms only
 	for _, n := range e.seqNames {
-		seqByTerm[n.t.ID] = n
+		if strings.HasPrefix(n.t.Name, "seq!") {
+			seqW[n.t.Name] = n.s.W
+		} else {
+			viewW[n.t.ID] = n.s.W
+		}
+	}
+	groundMemo := map[int]bool{}
+	isNamedSeq := func(a *smt.Term) (int, bool) {
+		if a.Op != "sym" && a.Op != "app" {
+			return 0, false
+		}
+		w, ok := seqW[a.Name]
+		if !ok {
+			w, ok = viewW[a.ID]
+			if !ok {
+				return 0, false
+			}
+		}
+		g, done := groundMemo[a.ID]
+		if !done {
+			g = len(smt.FreeBVars(a)) == 0
+			groundMemo[a.ID] = g
+		}
+		return w, g
 	}
 	extDone := map[[2]int]bool{}
 	var extCands []*smt.Term
-	for changed := true; changed; {
-		changed = false
-		for i, a := range axs {
-			if included[i] {
-				continue
-			}
-			if sharesNode(a, nodes, map[int]bool{}) {
-				included[i] = true
-				changed = true
-				raw = append(raw, a)
-				symNodes(a, nodes, seenN)
-			}
-		}
-		// extensionality between named sequences used as the same argument of the same function
+	// discoverExt adds extensionality between ground named sequences used as
+	// the same argument of the same function (or compared) in ts
+	discoverExt := func(ts []*smt.Term) bool {
+		added := false
 		groups := map[string][]*smt.Term{}
 		seenG := map[int]bool{}
 		var walk func(t *smt.Term)
@@ -472,7 +494,7 @@ func (e *Exec) EmitMode(o *Obligation, strict bool) []*smt.Term {
 			seenG[t.ID] = true
 			if t.Op == "app" && t.Name != "seq_len" && !strings.HasPrefix(t.Name, "seq_at") {
 				for k, a := range t.Args {
-					if _, ok := seqByTerm[a.ID]; ok {
+					if _, ok := isNamedSeq(a); ok {
 						key := fmt.Sprintf("%s#%d", t.Name, k)
 						groups[key] = append(groups[key], a)
 					}
@@ -480,7 +502,7 @@ func (e *Exec) EmitMode(o *Obligation, strict bool) []*smt.Term {
 			}
 			if t.Op == "=" && t.Args[0].Sort == sortByteSeq {
 				for _, a := range t.Args {
-					if _, ok := seqByTerm[a.ID]; ok {
+					if _, ok := isNamedSeq(a); ok {
 						groups["="] = append(groups["="], a)
 					}
 				}
@@ -489,10 +511,16 @@ func (e *Exec) EmitMode(o *Obligation, strict bool) []*smt.Term {
 				walk(a)
 			}
 		}
-		for _, t := range raw {
+		for _, t := range ts {
 			walk(t)
 		}
-		for _, g := range groups {
+		var gkeys []string
+		for k := range groups {
+			gkeys = append(gkeys, k)
+		}
+		sort.Strings(gkeys)
+		for _, gk := range gkeys {
+			g := groups[gk]
 			uniq := map[int]*smt.Term{}
 			for _, x := range g {
 				uniq[x.ID] = x
@@ -508,72 +536,100 @@ func (e *Exec) EmitMode(o *Obligation, strict bool) []*smt.Term {
 			for i := 0; i < len(xs); i++ {
 				for j := i + 1; j < len(xs); j++ {
 					key := [2]int{xs[i].ID, xs[j].ID}
-					if extDone[key] || seqByTerm[xs[i].ID].s.W != seqByTerm[xs[j].ID].s.W {
+					wi, _ := isNamedSeq(xs[i])
+					wj, _ := isNamedSeq(xs[j])
+					if extDone[key] || wi != wj {
 						continue
 					}
 					extDone[key] = true
-					ax, d := e.extAxiom(xs[i], xs[j], seqByTerm[xs[i].ID].s.W)
+					ax, d := e.extAxiom(xs[i], xs[j], wi)
 					raw = append(raw, ax)
 					symNodes(ax, nodes, seenN)
 					extCands = append(extCands, d)
-					changed = true
+					added = true
 				}
 			}
 		}
-	}
-	q := &qelim{c: c, skolem: map[int][]*smt.Term{}, apps: map[string][]*smt.Term{}, bmemo: map[int]bool{}, strict: strict}
-	seen := map[*smt.Term]bool{}
-	var small []*smt.Term
-	if e.SmallLen > 0 {
-		// replay search: the index range is tiny, instantiate it completely
-		for i := uint64(0); i < e.SmallLen; i++ {
-			small = append(small, c.BVC(i, 64))
-		}
-	}
-	for _, x := range append(append(append(append([]*smt.Term{}, o.Cands...), e.cands...), extCands...), small...) {
-		if !seen[x] && (nodes[x.ID] || x.Op != "sym") {
-			seen[x] = true
-			q.cands = append(q.cands, x)
-		}
+		return added
 	}
 	var out []*smt.Term
-	prevSize := -1
-	maxRounds := 4
-	if !strict {
-		maxRounds = 3
-	}
-	for round := 0; round < maxRounds; round++ {
-		q.newSk = nil
-		q.budget = 6000
-		// ground terms known so far: the raw formulas plus the previous round's instances
-		q.apps = map[string][]*smt.Term{}
-		seenA := map[int]bool{}
-		for _, t := range raw {
-			q.collectApps(t, seenA)
-		}
-		for _, t := range out {
-			q.collectApps(t, seenA)
-		}
-		if len(seenA) == prevSize && round > 0 {
-			break
-		}
-		prevSize = len(seenA)
-		out = nil
-		for _, t := range raw {
-			out = append(out, q.nnf(t, true))
-		}
-		if os.Getenv("GOVC_DEBUG") != "" {
-			fmt.Fprintf(os.Stderr, "  round %d strict=%v: budget left %d, skolems %d, cands %d\n", round, strict, q.budget, len(q.newSk), len(q.cands))
-		}
-		// skolems reach later instantiations through E-matching (they occur in
-		// ground applications of the previous round), not as blanket candidates
-		if round == 0 && os.Getenv("GOVC_SKCANDS") != "" {
-			for _, s := range q.newSk {
-				if !seen[s] {
-					seen[s] = true
-					q.cands = append(q.cands, s)
+	for outer := 0; outer < 3; outer++ {
+		for changed := true; changed; {
+			changed = false
+			for i, a := range axs {
+				if included[i] {
+					continue
+				}
+				if sharesNode(a, nodes, map[int]bool{}) {
+					included[i] = true
+					changed = true
+					raw = append(raw, a)
+					symNodes(a, nodes, seenN)
 				}
 			}
+			if discoverExt(raw) {
+				changed = true
+			}
+		}
+		q := &qelim{c: c, skolem: map[int][]*smt.Term{}, apps: map[string][]*smt.Term{}, bmemo: map[int]bool{}, strict: strict}
+		seen := map[*smt.Term]bool{}
+		var small []*smt.Term
+		if e.SmallLen > 0 {
+			// replay search: the index range is tiny, instantiate it completely
+			for i := uint64(0); i < e.SmallLen; i++ {
+				small = append(small, c.BVC(i, 64))
+			}
+		}
+		for _, x := range append(append(append(append([]*smt.Term{}, o.Cands...), e.cands...), extCands...), small...) {
+			if !seen[x] && (nodes[x.ID] || x.Op != "sym") {
+				seen[x] = true
+				q.cands = append(q.cands, x)
+			}
+		}
+		out = nil
+		prevSize := -1
+		maxRounds := 4
+		if !strict {
+			maxRounds = 3
+		}
+		for round := 0; round < maxRounds; round++ {
+			q.newSk = nil
+			q.budget = 6000
+			// ground terms known so far: the raw formulas plus the previous round's instances
+			q.apps = map[string][]*smt.Term{}
+			seenA := map[int]bool{}
+			for _, t := range raw {
+				q.collectApps(t, seenA)
+			}
+			for _, t := range out {
+				q.collectApps(t, seenA)
+			}
+			if len(seenA) == prevSize && round > 0 {
+				break
+			}
+			prevSize = len(seenA)
+			out = nil
+			for _, t := range raw {
+				out = append(out, q.nnf(t, true))
+			}
+			if os.Getenv("GOVC_DEBUG") != "" {
+				fmt.Fprintf(os.Stderr, "  round %d strict=%v: budget left %d, skolems %d, cands %d\n", round, strict, q.budget, len(q.newSk), len(q.cands))
+			}
+			// skolems reach later instantiations through E-matching (they occur in
+			// ground applications of the previous round), not as blanket candidates
+			if round == 0 && os.Getenv("GOVC_SKCANDS") != "" {
+				for _, s := range q.newSk {
+					if !seen[s] {
+						seen[s] = true
+						q.cands = append(q.cands, s)
+					}
+				}
+			}
+		}
+		// instances may contain ground instances of sequences named under a
+		// quantifier: they need extensionality too, and then another pass
+		if len(seqW)+len(viewW) == 0 || !discoverExt(out) {
+			break
 		}
 	}
 	// flatten top-level conjunctions, drop trivial
@@ -691,6 +747,47 @@ func (e *Exec) discharge(quick bool, sem chan struct{}, keepScripts bool) []*Obl
 					if b2.Status == "unsat" {
 						best = b2
 						r.Solver = b2.Solver + "+loose"
+					}
+				}
+			}
+			if !quick && best.Status == "unsat" {
+				// thorough tier: the other solvers are asked too; a proof only
+				// stands when none of them finds a model
+				finalScript := script
+				if strings.HasSuffix(r.Solver, "+loose") {
+					if a2 := e.emitLocked(r.O, false); a2 != nil {
+						logic2 := "QF_UFBV"
+						for _, a := range a2 {
+							if smt.HasQuant(a) {
+								logic2 = "ALL"
+								break
+							}
+						}
+						finalScript = e.scriptLocked(a2, logic2)
+					}
+				}
+				r.Cross = map[string]string{strings.TrimSuffix(best.Solver, "+loose"): "unsat"}
+				type cr struct{ name, status string; t float64 }
+				ch := make(chan cr, 3)
+				n := 0
+				for _, sv := range []string{"z3-new", "z3", "cvc5"} {
+					if _, done := r.Cross[sv]; done {
+						continue
+					}
+					n++
+					go func(sv string) {
+						x := smt.RunSolver(sv, finalScript, 20*time.Second)
+						ch <- cr{sv, x.Status, x.Time}
+					}(sv)
+				}
+				for i := 0; i < n; i++ {
+					x := <-ch
+					r.Cross[x.name] = x.status
+					r.Time += x.t
+					if x.status == "sat" {
+						best.Status = "sat"
+						best.Output = "solver disagreement: " + x.name + " answers sat where " + best.Solver + " answered unsat"
+						r.Solver = x.name
 					}
 				}
 			}
